@@ -46,7 +46,7 @@ def run(tier):
     corpus = os.path.join(d, "corpus.ndjson")
     small = [c for c in cases if c["note"]["kind"] == "short"][::40]
     extra = []
-    for mod in (["MC_C03", "MC_C05", "MC_C13", "MC_C14", "MC_C10", "MC_C04"] if thorough else ["MC_C03", "MC_C05", "MC_C14"]):
+    for mod in (["MC_C03", "MC_C05", "MC_C13", "MC_C14", "MC_C10", "MC_C04"] if thorough else ["MC_C03", "MC_C05", "MC_C14", "MC_C13"]):
         _, r2, cs = vlib.tlc_chunked(PROP, "corpus_" + mod, mod, nchunks=8)
         rep.add_tlc(mod + "(corpus)", r2)
         extra += cs
@@ -93,8 +93,8 @@ def run(tier):
             why = None
             if x["res"]["k"] in ("panic", "timeout"):
                 why = "panic: %s" % x["res"]["e"]
-            elif x["alloc"] > 2 * 10485760 + 1024 * fed + 65536:
-                why = "heap %d bytes after feeding %d bytes" % (x["alloc"], fed)
+            elif x["alloc"] > 1024 * len(op["data"][0]["lit"]) + 2 * x["buflen"] + 65536:
+                why = "heap %d bytes inside one call for a %d-byte record (buffer %d bytes)" % (x["alloc"], len(op["data"][0]["lit"]), x["buflen"])
             elif x.get("fmt_panic"):
                 why = "Debug formatting panicked"
             if why:
@@ -102,7 +102,7 @@ def run(tier):
                 rep.violation("defrag:%s" % vlib.hashlib.sha1(json.dumps(ops).encode()).hexdigest()[:10], {"ops": ops}, "returns Ok/Err", x, why, "path")
                 break
             rep.nontrivial(("defrag", op["op"], x["res"]["k"], x["inprog"]))
-    rep.assumptions += ["Heap bound: A = 1024 bytes per input byte + B = 64 KiB (+ 2 x 10 MiB for the defragmenter); measured worst case ~205 B/byte",
+    rep.assumptions += ["Heap bound per call: A = 1024 bytes per input byte + B = 64 KiB (defragmenter: + twice the buffer length after the call, i.e. amortised Vec growth, the buffer itself staying below 10 MiB); measured worst case ~205 B/byte",
                         "The harness is built with overflow-checks and debug-assertions on; a hang is a call exceeding 5 s"]
     return rep.finish("exploration",
                       "inputs = (1) every byte string of length <= 3 over a 12-symbol structural alphabet x 86 entry points, enumerated by TLC with the "
